@@ -85,7 +85,7 @@ func main() {
 
 	// type-check (needed for the map-range rewrite and the export tables)
 	conf := types.Config{Importer: importer.ForCompiler(fset, "source", nil), Error: func(err error) {}}
-	info := &types.Info{Types: map[ast.Expr]types.TypeAndValue{}, Defs: map[*ast.Ident]types.Object{}}
+	info := &types.Info{Types: map[ast.Expr]types.TypeAndValue{}, Defs: map[*ast.Ident]types.Object{}, Uses: map[*ast.Ident]types.Object{}, Selections: map[*ast.SelectorExpr]*types.Selection{}}
 	pkg, terr := conf.Check("github.com/go-ap/activitypub", fset, astFiles, info)
 	if pkg == nil {
 		die("type-check failed: %v", terr)
@@ -93,6 +93,7 @@ func main() {
 
 	var siteTable []string
 	mapRanges := 0
+	blockingCalls := 0
 	for _, fi := range files {
 		fi := fi
 		var funcStack []string
@@ -143,6 +144,8 @@ func main() {
 					walkList(x.Body)
 				case *ast.CommClause:
 					walkList(x.Body)
+				case *ast.CallExpr:
+					rewriteBlockingCall(fi, x, info, offOf, &blockingCalls)
 				case *ast.RangeStmt:
 					tv, ok := info.Types[x.X]
 					if !ok || tv.Type == nil {
@@ -226,7 +229,7 @@ func main() {
 			die("%v", err)
 		}
 	}
-	fmt.Printf("{\"sites\":%d,\"map_ranges\":%d,\"files\":%d}\n", len(siteTable), mapRanges, len(files))
+	fmt.Printf("{\"sites\":%d,\"map_ranges\":%d,\"files\":%d,\"blocking_calls\":%d}\n", len(siteTable), mapRanges, len(files), blockingCalls)
 }
 
 func recvName(e ast.Expr) string {
@@ -287,6 +290,63 @@ func rewriteMapRange(fi *fileInfo, r *ast.RangeStmt, offOf func(token.Pos) int, 
 	fi.edits = append(fi.edits, edit{off: offOf(r.For), end: offOf(r.Body.Lbrace) + 1, text: header, prio: 5})
 }
 
+// rewriteBlockingCall makes the blocking calls a data-type library could
+// plausibly contain cooperative, so that a task that would block on a lock
+// held by a parked task tells the scheduler instead of deadlocking the
+// simulation: X.Lock() / X.RLock() on sync.Mutex / sync.RWMutex become a
+// TryLock loop that yields through verifsim.Blocked(); X.Do(f) on sync.Once
+// becomes verifsim.OnceDo. The synchronisation primitives themselves stay
+// real, so ThreadSanitizer still sees the happens-before edges they create.
+func rewriteBlockingCall(fi *fileInfo, call *ast.CallExpr, info *types.Info, offOf func(token.Pos) int, n *int) {
+	sel, ok := call.Fun.(*ast.SelectorExpr)
+	if !ok {
+		return
+	}
+	fn, ok := info.Uses[sel.Sel].(*types.Func)
+	if !ok || fn.Pkg() == nil || fn.Pkg().Path() != "sync" {
+		return
+	}
+	sig, ok := fn.Type().(*types.Signature)
+	if !ok || sig.Recv() == nil {
+		return
+	}
+	recv := sig.Recv().Type()
+	if p, ok := recv.(*types.Pointer); ok {
+		recv = p.Elem()
+	}
+	named, ok := recv.(*types.Named)
+	if !ok {
+		return
+	}
+	x := string(fi.src[offOf(sel.X.Pos()):offOf(sel.X.End())])
+	switch named.Obj().Name() + "." + fn.Name() {
+	case "Mutex.Lock", "RWMutex.Lock":
+		*n++
+		fi.edits = append(fi.edits, edit{off: offOf(call.Pos()), end: offOf(call.End()), prio: 5,
+			text: fmt.Sprintf("func() { for !(%s).TryLock() { verifsim.Blocked() } }()", x)})
+	case "RWMutex.RLock":
+		*n++
+		fi.edits = append(fi.edits, edit{off: offOf(call.Pos()), end: offOf(call.End()), prio: 5,
+			text: fmt.Sprintf("func() { for !(%s).TryRLock() { verifsim.Blocked() } }()", x)})
+	case "Once.Do":
+		if len(call.Args) != 1 {
+			return
+		}
+		tv, ok := info.Types[sel.X]
+		if !ok {
+			return
+		}
+		ptr := "&(" + x + ")"
+		if _, isPtr := tv.Type.Underlying().(*types.Pointer); isPtr {
+			ptr = "(" + x + ")"
+		}
+		arg := string(fi.src[offOf(call.Args[0].Pos()):offOf(call.Args[0].End())])
+		*n++
+		fi.edits = append(fi.edits, edit{off: offOf(call.Pos()), end: offOf(call.End()), prio: 5,
+			text: fmt.Sprintf("verifsim.OnceDo(%s, %s)", ptr, arg)})
+	}
+}
+
 func pureOperand(e ast.Expr) bool {
 	switch x := e.(type) {
 	case *ast.Ident:
@@ -308,11 +368,76 @@ package verifsim
 
 import (
 	"fmt"
+	"runtime"
 	"sort"
+	"sync"
 )
 
 // Hook is set by the simulator before a run starts and cleared after it.
 var Hook func(uint32)
+
+// BlockedHook is called by a task that cannot take a lock (or must wait for a
+// sync.Once another task is running): the scheduler hands over to another task.
+var BlockedHook func()
+
+// Blocked is what the rewritten Lock / RLock / Once.Do calls spin on.
+func Blocked() {
+	if h := BlockedHook; h != nil {
+		h()
+		return
+	}
+	runtime.Gosched()
+}
+
+type onceState struct{ running, done bool }
+
+// only touched by the single running task, from norace code: no lock, so that
+// no happens-before edge is added that the program itself does not have
+var onces = map[*sync.Once]*onceState{}
+
+//go:norace
+func onceEnter(o *sync.Once) (run, done bool) {
+	st := onces[o]
+	if st == nil {
+		st = &onceState{}
+		onces[o] = st
+	}
+	if st.done {
+		return false, true
+	}
+	if !st.running {
+		st.running = true
+		return true, false
+	}
+	return false, false
+}
+
+//go:norace
+func onceLeave(o *sync.Once) {
+	if st := onces[o]; st != nil {
+		st.running, st.done = false, true
+	}
+}
+
+// OnceDo is o.Do(f) for the simulator: a task that finds another task inside
+// the Once yields instead of blocking on the Once's internal mutex. The real
+// o.Do is still what runs f and what late callers go through, so the
+// happens-before edge sync.Once provides is the real one.
+func OnceDo(o *sync.Once, f func()) {
+	for {
+		run, done := onceEnter(o)
+		if done {
+			o.Do(f)
+			return
+		}
+		if run {
+			defer onceLeave(o)
+			o.Do(f)
+			return
+		}
+		Blocked()
+	}
+}
 
 // Y is called before every statement of the instrumented package.
 func Y(s uint32) {
